@@ -48,16 +48,16 @@ RULE = ('(1) exhaustive mini-space: every Excel-sorted vector of length <= 4 (an
 BUDGET = {'quick': 12, 'thorough': 240}
 # mini:*, directed:*, match:mt=* and fn:match are the sizes of the deterministic enumerations (reached with
 # any budget); the others are 5-10x below what a quick run reaches with 16 shards on an unloaded machine
-# (3x below a run on a machine with load average 40)
+# (>= 2x below a run on a machine with load average 80 on 16 cores)
 FLOORS = {
     'quick': {'mini:match-approx': 12824, 'mini:match-exact': 21756, 'mini:index-sweep': 3690,
               'directed:wildcard': 1680, 'fn:match': 70000, 'match:mt=1': 6412, 'match:mt=-1': 6412,
               'match:mt=0': 22596, 'scenarios': 500,
-              'fn:vlookup': 20000, 'fn:hlookup': 20000, 'fn:lookup': 600, 'fn:index': 2500,
-              'via-workbook': 1000, 'firm': 100000,
+              'fn:vlookup': 20000, 'fn:hlookup': 20000, 'fn:lookup': 500, 'fn:index': 2000,
+              'via-workbook': 1000, 'firm': 60000,
               'law:vlookup=index(match)': 10000, 'law:hlookup=index(match)': 10000,
-              'law:vlookup=hlookup(transpose)': 20000, 'law:lookup=index(match)': 500,
-              'accept:duplicates': 5000, 'expect:#N/A': 30000, 'expect:error-propagates': 500,
+              'law:vlookup=hlookup(transpose)': 20000, 'law:lookup=index(match)': 400,
+              'accept:duplicates': 5000, 'expect:#N/A': 28000, 'expect:error-propagates': 400,
               'data:blank-ends': 6972, 'vkind:text': 30000, 'vkind:bool': 10000, 'vkind:num': 20000,
               'wild:pattern': 1200, 'idx:too-large': 5000, 'idx:zero': 2500, 'idx:negative': 2500,
               'idx:in-range': 10000},
